@@ -325,6 +325,40 @@ def fit_real(names, cols, spec, seed=7, hist=None):
     as_array = bool(hist and hist.get('as_array'))
     tables = hist['tables'] if hist else []
     conts = (hist.get('containers') if hist else None) or [None] * len(tables)
+    if hist and hist.get('inplace'):
+        # ONE container object (DataFrame / ndarray buffer): fit, overwrite some or all columns in place (same shape),
+        # fit again on the same model ... ; afterwards ANOTHER model is fitted on the same updated object
+        steps = [list(t) for t in tables] + [list(cols)]
+        if as_array:
+            obj = np.column_stack([np.asarray(c, dtype=float) for c in steps[0]])
+        else:
+            obj = pd.DataFrame({nm: np.asarray(c, dtype=float).copy() for nm, c in zip(names, steps[0])},
+                               columns=list(names))
+        with np.errstate(all='ignore'), warnings.catch_warnings():
+            warnings.simplefilter('ignore')
+            rec = None
+            for si, t in enumerate(steps):
+                if si > 0:
+                    for j, nm in enumerate(names):
+                        new = np.asarray(t[j], dtype=float)
+                        if np.array_equal(new, np.asarray(steps[si - 1][j], dtype=float)):
+                            continue
+                        if as_array:
+                            obj[:, j] = new
+                        elif (si + j) % 2:
+                            obj[nm] = new.copy()
+                        else:
+                            obj.loc[:, nm] = new
+                if si == len(steps) - 1:
+                    with CondRecorder() as rec:
+                        model.fit(obj)
+                else:
+                    model.fit(obj)
+            other = GaussianMultivariate(random_state=seed) if cfg is None else \
+                GaussianMultivariate(distribution=build_config(spec, names), random_state=seed)
+            other.fit(obj)
+            hist['_other_model'] = other
+        return X, model, rec.calls
     with np.errstate(all='ignore'), warnings.catch_warnings():
         warnings.simplefilter('ignore')
         for hc, ct in zip(tables, conts):
@@ -408,15 +442,33 @@ def remap_config(spec, old, new):
     return ['dict', {m[k]: v for k, v in spec[1].items() if k in m}]
 
 
-HISTORY_VARIANTS = ('frames-same', 'frames-renamed', 'arrays', 'named->array', 'intperm->array', 'array->named')
+HISTORY_VARIANTS = ('frames-same', 'frames-renamed', 'arrays', 'named->array', 'intperm->array', 'array->named',
+                    'inplace-frame', 'inplace-array')
 
 
-def gen_mixed_history(rng, nr, names, spec, variant=None):
+def gen_mixed_history(rng, nr, names, spec, variant=None, cols=None):
     """-> (names, spec, hist, variant): the estimator instance was fitted before on 1-2 tables of the same width in
     the SAME or ANOTHER container (DataFrame with the same / other / permuted-integer labels, bare ndarray); when the
     last input is a bare array its labels are 0..k-1 and a per-column dict is re-keyed by position."""
     k = len(names)
     variant = variant or rng.choice(HISTORY_VARIANTS)
+    if variant.startswith('inplace'):
+        if cols is None or set(dtype_names(cols)) != {'float64'}:
+            variant = 'frames-same'
+        else:
+            # buffer reuse: the caller keeps ONE DataFrame / ndarray, fits, overwrites some or all columns in place
+            # (same shape) and fits again; the earlier contents differ from the last in a random subset of columns
+            n = len(cols[0])
+            tables = []
+            for _ in range(rng.choice([1, 1, 2])):
+                changed = set(rng.sample(range(k), rng.choice([1, k]) if k > 1 else 1))
+                tables.append([_base_column(rng, nr, n)[1] if j in changed else np.array(cols[j], dtype=float)
+                               for j in range(k)])
+            last_array = variant == 'inplace-array'
+            if last_array:
+                spec = remap_config(spec, names, list(range(k)))
+                names = list(range(k))
+            return names, spec, {'tables': tables, 'as_array': last_array, 'containers': None, 'inplace': True}, variant
     tables = [gen_history(rng, nr, names) for _ in range(rng.choice([1, 1, 2]))]
     pool = ['height', 'weight', 'age', 'q', 'R', 's_2', 'tt', 'v']
     if variant == 'frames-same':
@@ -550,7 +602,7 @@ def run(ctx, lean):
         # the same or another container (mixed DataFrame / ndarray histories included)
         hist = None
         if t % 3 == 1:
-            names, spec, hist, variant = gen_mixed_history(rng, nr, names, spec)
+            names, spec, hist, variant = gen_mixed_history(rng, nr, names, spec, cols=cols)
             ctx.count('history:' + variant)
         elif t % 3 == 2:                     # the same table in another container / layout / row index
             names, cols, spec, hist = gen_form(rng, names, cols, spec,
@@ -813,10 +865,16 @@ def _oracle_core(names, cols, spec, hist=None, info=None):
                         'correlation index / columns, self.columns and to_dict()["columns"] are the training columns '
                         'of the LAST input in order (0..k-1 for a bare array), exactly as on a fresh instance'))
             return out          # stale labels also re-key a per-column distribution dict: same cause
+        other = hist.get('_other_model')
+        if not d and other is not None and F is not None:
+            d2 = first_diff(F, np.asarray(other.correlation.to_numpy(), dtype=float), ATOL)
+            if d2:
+                d = 'ANOTHER model fitted on the same in-place updated object: ' + d2
         if d:
             history_dependent = True
             out.append(('fit:correlation-depends-on-fit-history',
                         {'first_difference(fresh vs refitted)': d,
+                         'same_object_updated_in_place': bool(hist.get('inplace')),
                          'max_abs_diff': float(np.nanmax(np.abs(F - C))) if F is not None and F.shape == C.shape else None,
                          'earlier_fits_rows': [len(h[0]) for h in hist['tables']], 'as_array': bool(hist.get('as_array')),
                          'earlier_containers': hist.get('containers'),
@@ -1097,7 +1155,7 @@ def payload_of(names, cols, spec, kinds=None, hist=None):
          'dtypes': dtype_names(cols)}
     if hist is not None:
         d['refit_history'] = {'as_array': bool(hist.get('as_array')), 'containers': hist.get('containers'),
-                              'form': hist.get('form'),
+                              'form': hist.get('form'), 'inplace': bool(hist.get('inplace')),
                               'tables': [[[float(v) for v in c] for c in h] for h in hist['tables']]}
     return d
 
@@ -1111,6 +1169,7 @@ def from_payload(p):
     if p.get('refit_history') is not None:
         h = p['refit_history']
         hist = {'as_array': bool(h.get('as_array')), 'containers': h.get('containers'), 'form': h.get('form'),
+                'inplace': bool(h.get('inplace')),
                 'tables': [[np.array(c, dtype=float) for c in t] for t in h['tables']]}
     return names, cols, p['config'], hist
 
@@ -1148,9 +1207,12 @@ def shrink(names, cols, spec, cls, budget=14, hist=None):
     while budget > 0 and len(cols[0]) >= 40:
         h = max(20, len(cols[0]) // 2)
         cs = [c[:h] for c in cols]
+        hs = hist
+        if hist and hist.get('inplace'):               # the reused buffer keeps ONE shape
+            hs = dict(hist, tables=[[c[:h] for c in t] for t in hist['tables']])
         budget -= 1
-        if fails(names, cs, spec, hist):
-            cols = cs
+        if fails(names, cs, spec, hs):
+            cols, hist = cs, hs
         else:
             break
     return names, cols, spec, hist
@@ -1287,6 +1349,7 @@ def history_probes():
         return [stats.gamma.ppf(u[:, 0], 2.0) * scale, u[:, 1] * scale * 3 + scale,
                 stats.beta.ppf(u[:, 2], 2.0, 5.0) * scale - scale]
     A, B, C3 = tab(11, 60, 1.0, 0.7), tab(12, 80, 25.0, -0.5), tab(13, 40, 0.01, 0.1)
+    A2, B2 = tab(14, 50, 1.0, 0.7), tab(15, 50, 25.0, -0.5)          # same number of rows: one buffer
     g, u = ['class', 'GaussianUnivariate'], ['inst', 'UniformUnivariate']
     return [
         (['a', 'b', 'c'], B, g, ['probe:refit-same-labels'], {'tables': [A], 'as_array': False}),
@@ -1302,6 +1365,12 @@ def history_probes():
          {'tables': [A], 'as_array': True, 'containers': [{'labels': [2, 0, 1]}]}),
         ([0, 1, 2], B, g, ['probe:refit-intperm-then-array'],
          {'tables': [C3, A], 'as_array': True, 'containers': [{'labels': [1, 2, 0]}, {'labels': [2, 0, 1]}]}),
+        # buffer reuse: one object, columns overwritten in place between the fits
+        (['a', 'b', 'c'], [B2[0], B2[1], B2[2]], g, ['probe:inplace-frame-one-column'],
+         {'tables': [[B2[0], A2[1], B2[2]]], 'as_array': False, 'inplace': True}),
+        (['a', 'b', 'c'], B2, ['dict', {"'a'": ['class', 'GammaUnivariate'], "'b'": u, "'c'": ['str', 'GaussianKDE']}],
+         ['probe:inplace-frame-all-columns'], {'tables': [A2, [A2[0], B2[1], A2[2]]], 'as_array': False, 'inplace': True}),
+        ([0, 1, 2], B2, g, ['probe:inplace-array'], {'tables': [A2], 'as_array': True, 'inplace': True}),
         (['a', 'b', 'c'], B, ['dict', {"'a'": ['class', 'GammaUnivariate'], "'b'": u, "'c'": g}],
          ['probe:refit-array-then-named-dict'],
          {'tables': [A], 'as_array': False, 'containers': [{'array': True}]}),
@@ -1371,7 +1440,7 @@ def search(ctx, deep):
                 ndefault += 1
             r_ = rng.random()
             if r_ < 0.35:                  # the estimator instance was fitted before (same / mixed containers)
-                names, spec, hist, variant = gen_mixed_history(rng, nr, names, spec)
+                names, spec, hist, variant = gen_mixed_history(rng, nr, names, spec, cols=cols)
                 ctx.count('search:history:' + variant)
             elif r_ < 0.6:                 # the same table in another input form
                 names, cols, spec, hist = gen_form(rng, names, cols, spec)
